@@ -335,7 +335,11 @@ func (w *World) enabled() []core.WCmd {
 		}
 		add(okw, core.Cmd{A: "rel", Op: op.ID, Out: core.OutOK})
 		if p.OpErrW > 0 && op.Kind != "cache" {
-			add(p.OpErrW, core.Cmd{A: "rel", Op: op.ID, Out: core.OutErrNot})
+			ew := p.OpErrW
+			if op.Kind == "get" && strings.HasPrefix(op.Key, "staging/") {
+				ew *= 6 // the one read recovery depends on
+			}
+			add(ew, core.Cmd{A: "rel", Op: op.ID, Out: core.OutErrNot})
 			if op.Mut {
 				add(p.OpErrW, core.Cmd{A: "rel", Op: op.ID, Out: core.OutErrApplied})
 			}
@@ -471,15 +475,23 @@ func (w *World) enabled() []core.WCmd {
 // effect when it crashes.
 func (w *World) drawSubset(in *Instance) []int {
 	var l []int
-	k := 0
+	n := 0
 	for _, op := range w.liveParked() {
-		if op.Inst != in.idx || !op.Mut {
-			continue
+		if op.Inst == in.idx && op.Mut {
+			n++
 		}
-		if w.sim.Rng.Chance(1, 2) {
+	}
+	// a third each: an independent coin per operation, all but one, only one
+	mode := w.sim.Rng.Intn(3)
+	pick := 0
+	if n > 0 {
+		pick = w.sim.Rng.Intn(n)
+	}
+	for k := 0; k < n; k++ {
+		switch {
+		case mode == 0 && w.sim.Rng.Chance(1, 2), mode == 1 && k != pick, mode == 2 && k == pick:
 			l = append(l, k)
 		}
-		k++
 	}
 	return l
 }
